@@ -2,6 +2,7 @@ import KVerif.Drv.C10
 import KVerif.Drv.Lay
 import KVerif.Drv.C04
 import KVerif.Drv.C13
+import KVerif.Drv.C19
 import KVerif.Drv.C05
 import KVerif.Drv.Kan
 import KVerif.Drv.C02
@@ -13,6 +14,7 @@ def dispatch (prop : String) : Option (String → String × String) :=
   | "C10" => some C10.run
   | "C04" => some C04.run
   | "C13" => some C13.run
+  | "C19" => some C19.run
   | "C05" => some C05.run
   | "C05o" => some C05.runOracle
   | "KALL" => some (Kan.run "KAN")
